@@ -4,7 +4,13 @@
 
 package context
 
-import "strings"
+import (
+	"strings"
+
+	"github.com/free5gc/chf/pkg/factory"
+)
+
+var _ = factory.ChfConfig
 
 var _ = strings.HasPrefix
 
@@ -51,3 +57,9 @@ func SpecUeOf(supi string) *ChfUe { return nil }
 //@ func (*ChfUe).FindRatingGroup [C11]
 //@   requires ue != nil
 //@   loop 0: invariant 0 <= ITER
+
+// The context is initialised from a configuration that passed validation: every section read
+// unconditionally is present (C20).
+//@ func InitChfContext [C20]
+//@   requires context != nil && factory.SpecValidated(factory.ChfConfig)
+//@   modifies obj(context)
